@@ -821,32 +821,91 @@ def mk_min(vals, facts, kind="min"):
 
 
 def find_witness(symbols, facts, bad, ranges=None, limit=40):
-    """search small integer assignments of the free symbols that satisfy every fact (evaluated concretely; a fact that cannot be evaluated
-    is ignored only if it mentions none of the symbols) and make `bad(assign)` true.  A witness is a counter-example *under the tests the
-    code itself performs*.  Returns the assignment or None."""
+    """search small integer assignments of the free symbols that satisfy every fact that speaks about them and make `bad(assign)` true.
+    Facts are evaluated concretely; the other symbols such a fact mentions are searched too (small range); a candidate for which a
+    relevant fact cannot be evaluated is not a witness.  A witness is a counter-example *under the tests the code itself performs*.
+    Returns the assignment or None."""
     symbols = list(symbols)
-    if len(symbols) > 3:
+    if not symbols or len(symbols) > 3:
         return None
     rel = [(t, pol) for t, pol in facts if any(mentions(t, s) for s in symbols)]
+    # a comparison that involves, with coefficient +-1, a quantity no other fact speaks about can always be satisfied by choosing that
+    # quantity (len(d) == len(t): take len(d) = len(t)): it does not restrict the symbols searched
+    def free_choice(t, pol, f):
+        """the fact (t, pol) can be satisfied whatever the searched symbols are, by choosing a quantity only this fact speaks about"""
+        if isinstance(t, tuple) and t[:1] == ("not",):
+            return free_choice(t[1], not pol, f)
+        if isinstance(t, tuple) and t[:1] == ("bool",):
+            if (t[1] == "and" and not pol) or (t[1] == "or" and pol):
+                return any(free_choice(x, pol, f) for x in t[2])
+            return False
+        if not (isinstance(t, tuple) and t[:1] == ("cmp",) and t[1] in ("Eq", "GtE") and isinstance(t[2], Lin) and isinstance(t[3], Lin)):
+            return False
+        d = t[2] - t[3]
+        for a, coef in d.t.items():
+            if a in symbols or abs(coef) != 1:
+                continue
+            if isinstance(a, tuple) and a[:1] in (("fd",), ("min",), ("max",), ("mul",)):
+                continue
+            if any(g is not f and mentions(g[0], a) for g in rel) or any(mentions(o, a) for o in d.t if o != a):
+                continue
+            # within a compound fact the quantity must not occur in the sibling tests either
+            if sum(1 for _ in _occurrences(f[0], a)) > 1:
+                continue
+            return True
+        return False
+
+    changed = True
+    while changed:
+        changed = False
+        for f in list(rel):
+            if free_choice(f[0], f[1], f):
+                rel.remove(f)
+                changed = True
+                break
+    extra = []
+    for t, _ in rel:
+        for a in free_symbols(t):
+            if a not in symbols and a not in extra:
+                extra.append(a)
+    # tests on opaque things (isinstance(x, str), a callable's result) cannot be searched: give up rather than ignore them
+    if len(symbols) + len(extra) > 4:
+        return None
     import itertools
-    rng = [range(*(ranges or {}).get(s, (0, limit))) for s in symbols]
+    rng = [range(*(ranges or {}).get(s, (0, limit))) for s in symbols] + [range(*(ranges or {}).get(s, (0, 13))) for s in extra]
+    allsyms = symbols + extra
+    budget = 400000
     for combo in itertools.product(*rng):
-        assign = dict(zip(symbols, combo))
+        budget -= 1
+        if budget < 0:
+            return None
+        assign = dict(zip(allsyms, combo))
         ok = True
         for t, pol in rel:
             r = truth(t, assign)
-            if r is None:
-                continue
-            if r != pol:
+            if r is None or r != pol:
                 ok = False
                 break
         if ok:
             try:
                 if bad(assign):
-                    return assign
+                    return {k: v for k, v in assign.items() if k in symbols}
             except Exception:  # noqa
                 continue
     return None
+
+
+def _occurrences(v, atom):
+    if v == atom:
+        yield v
+        return
+    if isinstance(v, Lin):
+        for a in v.t:
+            yield from _occurrences(a, atom)
+    elif isinstance(v, tuple):
+        for x in v:
+            if isinstance(x, (tuple, Lin)):
+                yield from _occurrences(x, atom)
 
 
 def free_symbols(*vals):
@@ -904,8 +963,9 @@ def free_symbols(*vals):
 
 
 # ====================================================================================================================== engine
-IDENT_CALLS = {"np.atleast_1d", "np.asarray", "np.array", "np.atleast_2d", "np.ascontiguousarray", "numpy.asarray", "numpy.atleast_1d", "list", "tuple"}
-IDENT_METHODS = {"ravel", "flatten", "copy", "tolist"}
+IDENT_CALLS = {"np.atleast_1d", "np.asarray", "np.array", "np.atleast_2d", "np.ascontiguousarray", "numpy.asarray", "numpy.atleast_1d", "list", "tuple",
+               "np.ravel", "np.asanyarray", "np.squeeze", "np.copy", "np.asfarray", "numpy.array", "numpy.ravel"}
+IDENT_METHODS = {"ravel", "flatten", "copy", "tolist", "squeeze", "to_numpy"}
 
 
 def origin(v):
@@ -918,6 +978,9 @@ def origin(v):
             if v[1].startswith(".") and v[1][1:] in IDENT_METHODS and len(v[2]) == 1:
                 v = v[2][0]
                 continue
+        if isinstance(v, tuple) and v and v[0] == "attr" and v[2] == "values":
+            v = v[1]            # DataFrame.values has the shape of the frame
+            continue
         if isinstance(v, tuple) and v and v[0] == "elem" and isinstance(v[1], tuple) and v[1] and v[1][0] == "op" and v[1][1] in IDENT_CALLS \
                 and is_int_const(v[2]) and 0 <= ival(v[2]) < len(v[1][2]) and len(v[1][2]) > 1:
             v = v[1][2][ival(v[2])]
@@ -1286,7 +1349,7 @@ class Engine:
                     if isinstance(t, ast.Starred):
                         self.assign(t.value, ("op", "rest", (v, Lin(c=i))), st, node)
                     else:
-                        self.assign(t, ("elem", v, Lin(c=i)), st, node)
+                        self.assign(t, self._elem(v, Lin(c=i)), st, node)
         elif isinstance(target, ast.Subscript):
             base = self.ev(target.value, st)
             idx = self.index(target.slice, st)
@@ -1572,6 +1635,22 @@ class Engine:
             return ("tuple", tuple(self.index(e, st) for e in sl.elts))
         return self.ev(sl, st)
 
+    def _elem(self, base, idx):
+        """base[idx] on values"""
+        if isinstance(base, tuple) and base and base[0] == "attr" and base[2] == "shape" and is_int_const(idx):
+            if ival(idx) == 0:
+                return lin(("len", origin(base[1])))
+            return lin(("dim", origin(base[1]), ival(idx)))
+        if isinstance(base, tuple) and base and base[0] == "op" and base[1] in ("np.shape", "numpy.shape") and is_int_const(idx) and len(base[2]) == 1:
+            if ival(idx) == 0:
+                return lin(("len", origin(base[2][0])))
+            return lin(("dim", origin(base[2][0]), ival(idx)))
+        if isinstance(base, tuple) and base and base[0] == "tuple" and is_int_const(idx) and -len(base[1]) <= ival(idx) < len(base[1]):
+            return base[1][ival(idx)]
+        if isinstance(idx, tuple) and idx and idx[0] == "sl":
+            return ("slice", base, idx[1], idx[2], idx[3])
+        return ("elem", base, idx)
+
     def is_str(self, v):
         return isinstance(v, S) or (isinstance(v, tuple) and v and v[0] == "sym" and v[1].split("@")[0] in self.strings)
 
@@ -1700,19 +1779,7 @@ class Engine:
         if isinstance(node, ast.Subscript):
             base = self.ev(node.value, st)
             idx = self.index(node.slice, st)
-            if isinstance(base, tuple) and base and base[0] == "attr" and base[2] == "shape" and is_int_const(idx):
-                if ival(idx) == 0:
-                    return lin(("len", origin(base[1])))
-                return lin(("dim", origin(base[1]), ival(idx)))
-            if isinstance(base, tuple) and base and base[0] == "op" and base[1] in ("np.shape", "numpy.shape") and is_int_const(idx) and len(base[2]) == 1:
-                if ival(idx) == 0:
-                    return lin(("len", origin(base[2][0])))
-                return lin(("dim", origin(base[2][0]), ival(idx)))
-            if isinstance(base, tuple) and base and base[0] == "tuple" and is_int_const(idx) and -len(base[1]) <= ival(idx) < len(base[1]):
-                return base[1][ival(idx)]
-            if isinstance(idx, tuple) and idx and idx[0] == "sl":
-                return ("slice", base, idx[1], idx[2], idx[3])
-            return ("elem", base, idx)
+            return self._elem(base, idx)
         if isinstance(node, ast.BinOp):
             a = self.ev(node.left, st)
             b = self.ev(node.right, st)
@@ -1812,6 +1879,10 @@ class Engine:
             self.assign(g.target, tv, sub, node)
             elt = self.ev(node.elt, sub)
             return ("comp", elt, it, tv, lid)
+        if isinstance(node, ast.Lambda):
+            self.lambdas = getattr(self, "lambdas", {})
+            self.lambdas[id(node)] = node
+            return ("lambda", id(node))
         if isinstance(node, (ast.ListComp, ast.GeneratorExp, ast.SetComp, ast.DictComp, ast.Lambda, ast.Dict, ast.Await, ast.Yield, ast.YieldFrom)):
             return ("op", "<" + type(node).__name__ + ">", (("k", ast.dump(node)),))
         raise Unsupported(f"expression {type(node).__name__}")
@@ -1898,6 +1969,21 @@ class Engine:
             return lin(("len", origin(args[0])))
         if name in ("zip", "enumerate"):
             return ("op", name, tuple(args))
+        if name == "divmod" and nargs == 2 and is_int_const(lin(args[1])) and ival(lin(args[1])) > 0:
+            k = ival(lin(args[1]))
+            return ("tuple", (floordiv(args[0], k), mod(args[0], k)))
+        if attr in ("ljust", "rjust", "center") and nargs == 1 and is_int_const(lin(args[0])) and not kws:
+            if recv is None and name is not None:
+                recv = self.ev(node.func.value, st)
+            if self.is_str(recv):
+                al = {"ljust": "<", "rjust": ">", "center": "^"}[attr]
+                if isinstance(recv, S) and len(recv.p) == 1 and recv.p[0][0] == "fv" and recv.p[0][1] == "":
+                    return S((("fv", f"{al}{ival(lin(args[0]))}", recv.p[0][2], recv.p[0][3]),))        # str(x).rjust(n)
+                return S((("fv", f"{al}{ival(lin(args[0]))}s", recv, role_of(node.func.value)),))
+        if name == "str" and nargs == 1 and not kws:
+            if isinstance(args[0], S):
+                return args[0]
+            return S((("fv", "", args[0], role_of(node.args[0])),))
         if attr == "format" and recv is None and name is not None:
             recv = self.ev(node.func.value, st)
         if attr == "format" and recv is not None and self.is_str(recv):
@@ -1949,6 +2035,8 @@ class Engine:
             n = self.slice_len(v, st.facts)
             if n is not None:
                 return n
+        if isinstance(v, tuple) and v and v[0] == "elem" and isinstance(v[2], Lin):
+            return lin(("dim", origin(v[1]), 1))          # the length of a row of a 2-D array
         return lin(("len", origin(v)))
 
     def slice_len(self, v, facts):
